@@ -45,7 +45,7 @@ META = {
                                                   "tallies and answers 'empty' (keeps the HashMap insert out of the formula)"],
     },
     "C03": {
-        "bounds": "grid (n, s, T) in {(2,1,1), (3,2,1), (3,1,2), (2,1,3), (0,1,1), (1,0,1)} (thorough adds (4,3,2), (5,1,4)); "
+        "bounds": "grid (n, s, T) in {(2,1,1), (3,2,1), (3,1,2), (2,1,3), (0,1,1), (1,0,1)} (1,1,3) [overshoot by two], (thorough adds (4,3,2), (5,1,4)); "
                   "test mode with symbolic n, s >= 1 for T in {1,2}; default n (unset) for the first 3 rounds; all clock "
                   "readings symbolic; the round bound is one more than the expected number of rounds so that an extra round "
                   "is a reported failure, not a cut path",
@@ -106,11 +106,11 @@ META = {
     },
     "C11": {
         "bounds": "a, b, f symbolic over the full u64 range (f != 0) for TscTimestamp::duration_since (floor characterised "
-                  "without division: q*f <= n < q*f+f); dispatch through Timestamp::duration_since; every std Duration "
+                  "without division: q*f <= n < q*f+f), plus an 8-bit slice as a cheap guard; dispatch through Timestamp::duration_since; every std Duration "
                   "(secs any u64, nanos < 10^9); four z3 lemmas on the specification formula (monotone, additive within 1 ps, "
                   "translation invariant, identity at 10^12 Hz) over unbounded integers restricted to the u64 ranges",
-        "outside": "the precision clause: Timer::measure_precision is an unbounded loop around 100 x delay iterations of the "
-                   "real clock (CBMC symex did not finish in 19 min in the design probes); OS timer (Instant)",
+        "outside": "the precision clause: Timer::measure_precision on a uniformly stepping stub clock is an attempt-only cell "
+                   "in the thorough tier (timed out at 1800-2400 s here: reported as not covered, never as passed); OS timer (Instant)",
         "assumptions": COMMON_TRUST + ["z3 4.8.12 and z3 5.1 must both answer unsat x4; the lemmas are about the formula, the "
                                        "link to the code is the Kani equality"],
     },
@@ -125,7 +125,7 @@ META = {
     "C13": {
         "bounds": "FilterSet::is_match with 0, 2, 3 (thorough 4) filters, each symbolic in polarity and kind; exact filters "
                   "carry a symbolic 1-byte string (2-byte whole-string cell), regex filters an arbitrary-but-fixed verdict; "
-                  "SplitVec::insert for 3 and 4 symbolic inserts",
+                  "SplitVec::insert for 3 and 4 symbolic inserts; run_bench_entry args arm: a symbolic pair of kept argument names (any filter/sort outcome) runs exactly the arguments they name",
         "outside": "regular-expression search semantics (regex-lite trusted), the text of the display path, tree pruning "
                    "(EntryTree::retain: CBMC unrolls the recursive drop glue of removed subtrees and does not finish), clap",
         "assumptions": COMMON_TRUST + ["regex_lite::Regex::is_match stubbed to an opaque verdict keyed by a filter id smuggled "
@@ -147,15 +147,15 @@ META = {
                   "thread lists, 4 counter kinds); three-level composition runner > benchmark > group; the real run_tree on "
                   "module -> group -> group -> benchmark with three symbolic option sets (run_bench_entry replaced by a "
                   "recorder); CounterSet/CounterCollection per kind incl. Bencher::counter; RunIgnored truth table; "
-                  "IntoThreads for usize, bool, [usize; 3]; has_samples and time defaults",
+                  "IntoThreads for usize, bool, [usize; 3]; the thread list inside run_bench_entry (0 -> available parallelism, sorted, duplicates collapse: symbolic [a,b,c] in 0..=3 plus the concrete witness [0,1,3]); has_samples and time defaults",
         "outside": "clap definitions and DIVAN_* environment fallbacks; attribute macro -> BenchOptions literal (proc macro); "
-                   "the 0 -> available-parallelism mapping and final sort/dedup inside run_bench_entry (ipnsort under CBMC)",
+                   "real std::thread::available_parallelism (stubbed to 3 in the thread-list cells)",
         "assumptions": COMMON_TRUST + ["per-loop unwinding: global bound 3 plus --unwindset for the 4-element "
                                        "KnownCounterKind::ALL.map loop in the run_tree cells"],
     },
     "C16": {
         "bounds": "cmp_bench_arg_names(Name) on digit strings of lengths (1,2), (2,2) (thorough (3,2)), negative vs positive, "
-                  "negative vs negative; Location = declaration order; with_tie_breakers table; cmp_int on digit runs "
+                  "negative vs negative; integer vs non-numeric word (falls through to the natural order); Location = declaration order; with_tie_breakers table; cmp_int on digit runs "
                   "(2,3), (3,1) (thorough (3,3)); natural_cmp on 1-byte strings over {0,1,9,a,<} (thorough: 'a'+digit, "
                   "'a'+2 digits vs 'a'+1 digit)",
         "outside": "float arguments (dec2flt), non-ASCII names, longer strings, transitivity over triples, std sort itself "
@@ -166,7 +166,8 @@ META = {
     "C17": {
         "bounds": "BenchArgs::runner with 3 symbolic u8 arguments and a symbolic choice of the kept name pointer: index "
                   "recovery, typed argument, TypeId rejection, the benchmark closure receives that argument, second runner "
-                  "call shares the list; &str items (name buffer reuse); slice_ptr_index for element sizes 1, 4, 16",
+                  "call shares the list; &str items (name buffer reuse); slice_ptr_index for element sizes 1, 4, 16; the real "
+                  "run_bench_entry args arm with a symbolic pair of kept names (driver dispatch)",
         "outside": "macro-generated glue (ToStringHelper, Arg::get), const generics and type names, String/Box<str>/Cow reuse "
                    "paths, lists longer than 3",
         "assumptions": COMMON_TRUST + ["engine artefact ignored: 'memset destination region writeable' for mem::zeroed of the "
@@ -181,7 +182,7 @@ META = {
     },
     "C19": {
         "bounds": "sample_size unset; (n, T, precision) in {(1,1,10 ps), (2,1,1 ps with symbolic max_time), (1,2,1000 ps)} "
-                  "(thorough: symbolic precision 1..=2^20 ps, 4 rounds); clock increments symbolic in 0..=400 x precision; "
+                  "(thorough: symbolic precision 1..=2^20 ps, 4 rounds), (2,1,1 ps, max_time, skip_ext_time=true); SampleCollection::clear() discards time samples and allocation records (one real HashMap insert); clock increments symbolic in 0..=400 x precision; "
                   "up to 3 rounds",
         "outside": "more than 3 (4) doublings; u32 overflow of the doubled size after 32 rounds",
         "assumptions": COMMON_TRUST + LOOP_ENV,
